@@ -30,6 +30,13 @@ Definition so_kind_tables : list (list bytes * list bytes) := [
 (* ---- session.go stanzaEncoder.EncodeToken: its non-empty string literals, in order of first use ---- *)
 Definition so_se_literals : list bytes := [hex "6964"; hex "66726f6d"; hex "786d6c6e73"].
 
+(* ---- internal/marshal/encode.go rawTokenReader.Token: the binding stack ---- *)
+Definition so_raw_push_after_inc : bool := true.
+Definition so_raw_lookup_innermost : bool := true.
+Definition so_raw_pop_before_dec : bool := true.
+Definition so_raw_pop_cmp : bytes := hex "3e3d".
+Definition so_raw_pop_rhs_is_depth : bool := true.
+
 (* ---- internal/attr/idgen.go, internal/stream/stream.go ---- *)
 Definition so_id_len : nat := 16.
 Definition so_ns_xml : bytes := hex "687474703a2f2f7777772e77332e6f72672f584d4c2f313939382f6e616d657370616365".
